@@ -353,7 +353,7 @@ def extra_layouts(ctx, kind, st, data):
     rng = ctx.rng
     codec = kind.codec
     f = st.after
-    if len(f) > 60_000:
+    if len(f) > 100_000:
         return
     # (1) a foreign logical stream multiplexed between the pages
     if rng.random() < 0.7:
